@@ -158,7 +158,7 @@ class PMap(Pattern):
 
     def __next__(self):
         args = [Pattern.value(value) for value in self.args]
-        kwargs = dict((key, Pattern.value(value)) for key, value in list(self.kwargs.items()))
+        kwargs = {key: Pattern.value(value) for key, value in list(self.kwargs.items())}
         value = next(self.input)
         rv = self.operator(value, *args, **kwargs)
         return rv
@@ -180,7 +180,7 @@ class PMapEnumerated(PMap):
 
     def __next__(self):
         args = [Pattern.value(value) for value in self.args]
-        kwargs = dict((key, Pattern.value(value)) for key, value in list(self.kwargs.items()))
+        kwargs = {key: Pattern.value(value) for key, value in list(self.kwargs.items())}
         value = next(self.input)
         rv = self.operator(next(self.counter), value, *args, **kwargs)
         return rv
